@@ -30,6 +30,7 @@ MIN_REACH = {
     "batch_files_read": {"quick": 2500, "thorough": 30000},
     "contract_evals_choose_batch_settings": {"quick": 300, "thorough": 3000},
     "crops_given_a_size_and_a_count_that_agree": {"quick": 20, "thorough": 60},
+    "sows_of_two_thousand_and_more_settings": {"quick": 3, "thorough": 4},
     "reloads_checked": {"quick": 300, "thorough": 3000},
     "resows_accepted": {"quick": 15, "thorough": 60},
     "resows_refused": {"quick": 15, "thorough": 60},
@@ -70,6 +71,15 @@ def cases(ctx):
             yield {"w": {"mode": "grid", "combos": _factor_grid(n, nb + 1), "names": None, "cases": None,
                          "constants": {}, "kind": "int"}, "batchsize": None, "num_batches": nb, "shuffle": False,
                    "where": "ctor", "refused_first": [None, None, "same_object", "new_object"][(n + nb) % 4]}
+    # sows of two thousand and more settings (2121, 2001, 3407: no multiples of a round chunk): the arithmetic is the
+    # same, but long sows are where progress reporting / chunking shortcuts live
+    for i, (n, bs, nb) in enumerate([(2121, 50, None), (2001, None, 41), (2121, None, 7), (3407, 100, None)][:ctx.pick(3, 4)]):
+        if n == 3407:
+            w = {"mode": "cases", "combos": [], "names": ["p", "q"], "cases": [{"p": j, "q": "s%d" % (j % 3)} for j in range(n)],
+                 "constants": {}, "kind": "int"}
+        else:
+            w = {"mode": "grid", "combos": _factor_grid(n, 3), "names": None, "cases": None, "constants": {}, "kind": "int"}
+        yield {"w": w, "batchsize": bs, "num_batches": nb, "shuffle": [False, True, False, 3][i], "where": ["ctor", "sow"][i % 2], "long": True}
     # a size AND a count, agreeing exactly (s * k = N): both clauses hold at once
     for n in range(1, nmax + 1):
         for bs in range(1, n + 1):
@@ -438,6 +448,8 @@ def run_case(ctx, case):
     if case["batchsize"] is None and case["num_batches"] is None:
         if B != n or any(v != 1 for v in sizes.values()):
             bad.append("default batching is not one setting per batch: %s" % sizes)
+    if case.get("long"):
+        ctx.count("sows_of_two_thousand_and_more_settings")
     if rep1[1] != B or rep1[2] != B:
         bad.append("crop reports num_batches=%r num_sown_batches=%r but %d batch files exist" % (rep1[1], rep1[2], B))
     if rep3 != rep1:
